@@ -15,4 +15,12 @@ func collect() {
 	callArg("p/kademlia", "DHTGet", "dhtIterate", 2, "dht_get_width")
 	callArg("p/kademlia", "DHTJoin", "dhtIterate", 2, "dht_join_width_expr")
 	callArg("p/kademlia", "DHTPut", "dhtIterate", 2, "dht_put_width_expr")
+
+	// C17: peer-id text alphabet and size; hash used by each layer's DefaultFingerprinter
+	constString(".", "Base64Alphabet", "base64_alphabet")
+	constInt(".", "PeerIDSize", "peer_id_size")
+	callsWithPrefix("s/p2pkeswarm", "DefaultFingerprinter", "sha3", "fp_hash_p2pkeswarm")
+	callsWithPrefix("s/quicswarm", "DefaultFingerprinter", "sha3", "fp_hash_quicswarm")
+	callsWithPrefix("s/p2pkeswarm", "DefaultFingerprinter", "x509", "fp_input_p2pkeswarm")
+	callsWithPrefix("s/quicswarm", "DefaultFingerprinter", "x509", "fp_input_quicswarm")
 }
